@@ -169,6 +169,9 @@ def hasLower (n : Str) (hs : List (Str × Str)) : Bool := hs.any (fun p => lower
 
 def isHead (m : Str) : Bool := m = str "HEAD"
 
+/-- statuses whose responses never carry a body (the container drops the application's body for them) -/
+def noBodyStatus (code : Nat) : Bool := code = 204 || code = 304 || (100 ≤ code && code < 200)
+
 /-- the defaults `handle_request` appends -/
 def defaults (code : Nat) (hs : List (Str × Str)) (bodyLen : Nat) (version : Str) : List (Str × Str) :=
   (if code ≠ 304 ∧ !hasLower (str "content-length") hs then [(str "Content-Length", toDec bodyLen)] else []) ++
@@ -185,7 +188,7 @@ def respond (method : Str) (tver : Str) (a : AppOut) : Except Err Resp :=
     | some code =>
       .ok { code := code, reason := reason,
             headers := a.headers ++ defaults code a.headers a.body.length tver,
-            body := if isHead method || code = 304 then [] else a.body }
+            body := if isHead method || noBodyStatus code then [] else a.body }
 
 /-- `HTTPHeaders.add` for every pair, then `get_all()`: grouped by normalised name in first-insertion order -/
 def addPair (acc : List (Str × List Str)) (kv : Str × Str) : List (Str × List Str) :=
